@@ -121,25 +121,51 @@ def failures(P, R, ld):
             bad = [t for t in uses if 'null' in before.get(t.key, set()) or 'loaded?' in before.get(t.key, set())]
             R.ob('C20.MPT.1', bool(uses) and not bad, ls, '%s: a dependency that cannot be loaded is fatal before any edge is recorded' % dname, key='fatal:dependency:%s' % dname)
     ll = P.need_fn('module_load_list')
-    # failed load -> non-zero return
-    for bid in ll.reachable_blocks():
-        for e in ll.out[bid]:
-            r = rules.edge_rel(e)
-            if r and isinstance(r[0], dict) and r[0].get('k') == 'callref' and r[0].get('callee') == 'module_load' and r[1] == '==' and const_of(r[2]) == 0:
-                rets = [t for t in ll.block_sites(e.dst) if t.ev['k'] == 'ret']
-                R.ob('C20.MPT.1', bool(rets) and const_of(rets[0].ev.get('val')) not in (None, 0), rets[0] if rets else ll, 'a failed load makes the list loader return non-zero', key='propagate:load')
+    # failed load / failed walk -> non-zero return (path-sensitive: also through folded helpers)
+    def failing(e):
+        r = rules.edge_rel(e)
+        if r and isinstance(r[0], dict) and r[0].get('k') == 'callref' and r[0].get('callee') == 'module_load' and r[1] == '==' and const_of(r[2]) == 0:
+            return 'load'
+        return None
     dfs_calls = [s for s in ll.calls('module_dfs')]
+    rvs = {}
     for s in dfs_calls:
         st = [t for t in ll.stores() if (t.ev.get('rhs') or {}).get('ev') == s.ev['id'] and is_var(t.ev.get('lhs'))]
-        rv = st[0].ev['lhs']['name'] if st else None
-        ok = False
-        for bid in ll.reachable_blocks():
-            for e in ll.out[bid]:
-                r = rules.edge_rel(e)
-                if r and is_var(r[0], rv) and r[1] == '!=' and const_of(r[2]) == 0:
-                    rets = [t for t in ll.block_sites(e.dst) if t.ev['k'] == 'ret']
-                    ok = bool(rets) and is_var(rets[0].ev.get('val'), rv)
-        R.ob('C20.MPT.1', ok, s, 'a non-zero DFS result is returned by the list loader', key='propagate:dfs')
+        if st:
+            rvs[st[0].ev['lhs']['name']] = s
+
+    def on_edge(st, e):
+        k = failing(e)
+        if k:
+            return 'failed:load'
+        r = rules.edge_rel(e)
+        if r and is_var(r[0]) and r[0]['name'] in rvs and const_of(r[2]) == 0 and st == 'walked':
+            return 'failed:dfs' if r[1] == '!=' else 'pre'
+        return st
+
+    def on_event(st, t):
+        if t.ev['k'] == 'call' and t.ev.get('callee') == 'module_dfs' and not st.startswith('failed'):
+            return 'walked'
+        return st
+    before, _, _, _ = ll.forward('pre', on_event, on_edge)
+    seen_kinds = set()
+    for t in ll.sites():
+        if t.ev['k'] != 'ret':
+            continue
+        for st in before.get(t.key, set()):
+            if not st.startswith('failed'):
+                continue
+            kind = st.split(':')[1]
+            seen_kinds.add(kind)
+            v = t.ev.get('val')
+            c = const_of(ll.expand_local(v, t)) if isinstance(v, dict) else None
+            ok = (c not in (None, 0)) or (kind == 'dfs' and is_var(v) and v['name'] in rvs)
+            if kind == 'load':
+                R.ob('C20.MPT.1', ok, t, 'a failed load makes the list loader return non-zero (returns %s)' % sx(v), key='propagate:load')
+            else:
+                R.ob('C20.MPT.1', ok, t, 'a non-zero DFS result is returned by the list loader (returns %s)' % sx(v), key='propagate:dfs')
+    R.ob('C20.MPT.1', 'load' in seen_kinds, ll, 'the list loader has a return on the failed-load path', key='propagate:load:exists', nontrivial=False)
+    R.ob('C20.MPT.1', 'dfs' in seen_kinds, ll, 'the list loader has a return on the failed-walk path', key='propagate:dfs:exists', nontrivial=False)
     main = P.need_fn('main')
     for bid in main.reachable_blocks():
         for e in main.out[bid]:
@@ -252,13 +278,21 @@ def walk_starts(P, R):
         incb = nxt[0].bid
         live = ll.reachable_blocks()
         edges = []
-        for bid in live:
-            for e in ll.out[bid]:
-                if e.dst == incb and not ll.dominates(s.bid, bid) and bid != s.bid:
-                    if e.label == 'fall' and not ll.block_sites(bid):
-                        edges.extend(x for x in ll.inn[bid] if x.src in live)
-                    elif e.label in ('true', 'false'):
-                        edges.append(e)
+        seen_e = set()
+        work = [e for bid in live for e in ll.out[bid] if e.dst == incb]
+        while work:
+            e = work.pop()
+            bid = e.src
+            if (e.src, e.dst, e.label) in seen_e or bid not in live:
+                continue
+            seen_e.add((e.src, e.dst, e.label))
+            if ll.dominates(s.bid, bid) or bid == s.bid:
+                continue
+            if e.label in ('true', 'false'):
+                edges.append(e)
+            elif not [t for t in ll.block_sites(bid) if not t.ev.get('synthetic')] or all(t.ev['k'] in ('decl',) for t in ll.block_sites(bid)):
+                # empty pass-through blocks (also the residue of folded accessors): look further back
+                work.extend(ll.inn[bid])
         for e in edges:
             r = rules.edge_rel(e)
             ok = bool(r) and is_field(r[0], 'visited') and r[1] == '!=' and const_of(r[2]) == 0
